@@ -1,4 +1,5 @@
 import BpProofs.SrcTieTemplate
+import BpProofs.Props.C13
 /-
   C13 ("… resolves, once the generated packages are imported, to exactly the class generated for that type — also when
   packages depend on each other circularly and when many such references coexist in one module"), the part the
@@ -89,6 +90,85 @@ theorem src_imports_end_keeps_case_variants (c : OutputFile) :
   refine ⟨(enumsBlock c ++ messagesBlock c ++ stubsBlock c) ++ [Piece.lit "\n"], Piece.lit "\n" :: basesBlock c, ?_⟩
   rw [src_imports_end_position]
   simp
+
+/-! ## the namespace the emitted lines build -/
+
+section ns
+open Bp.Importing
+
+/-- in a namespace where two bindings of one name are the same binding, what a name is bound to depends on the SET
+    of bindings only — not on the order of the import statements, nor on repetitions -/
+theorem lookupNs_same_set (ns1 ns2 : List (Importing.Str × Obj)) (h12 : ∀ b ∈ ns1, b ∈ ns2) (h21 : ∀ b ∈ ns2, b ∈ ns1)
+    (hcons : ∀ b ∈ ns1, ∀ b' ∈ ns1, b.1 = b'.1 → b = b') (a : Importing.Str) : lookupNs ns1 a = lookupNs ns2 a := by
+  by_cases h : ∃ b ∈ ns1, b.1 = a
+  · obtain ⟨⟨a', o⟩, hb, rfl⟩ := h
+    rw [lookupNs_unique ns1 a' o hb (fun b' hb' e => by rw [hcons b' hb' (a', o) hb e]),
+      lookupNs_unique ns2 a' o (h12 _ hb) (fun b' hb' e => by rw [hcons b' (h21 _ hb') (a', o) hb e])]
+  · have h1 : ∀ b ∈ ns1, b.1 ≠ a := fun b hb e => h ⟨b, hb, e⟩
+    rw [lookupNs_none ns1 a h1, lookupNs_none ns2 a (fun b hb => h1 b (h21 b hb))]
+
+/-- … hence so does the value of every forward reference -/
+theorem denoteNs_same_set (cur : Pkg) (ns1 ns2 : List (Importing.Str × Obj)) (h12 : ∀ b ∈ ns1, b ∈ ns2)
+    (h21 : ∀ b ∈ ns2, b ∈ ns1) (hcons : ∀ b ∈ ns1, ∀ b' ∈ ns1, b.1 = b'.1 → b = b') (r : Ref) :
+    denoteNs cur ns1 r = denoteNs cur ns2 r := by
+  cases r <;> simp only [denoteNs, lookupNs_same_set ns1 ns2 h12 h21 hcons]
+
+/-- **composition with `all_at_once` (Props/C13.lean)**: let `sites` be the reference sites of the module of package
+    `cur` and let `imports_end` hold the texts (`Import.render`) of their imports — every site's import is there or is
+    "no import", nothing else is there; listed in ANY order, a set has none.  Then (1) the body template as written
+    emits exactly these texts, each as a line of its own, in one block between blank lines, and (2) in the namespace
+    that executing these lines in that order builds (`Import.bind`, BpModel/Importing.lean), every reference of the
+    module to a type of a generated package denotes the class generated for that type in ITS package.
+    (That Python reads an import text as `Import.bind` says is validated by really importing generated packages —
+    check C13 —, not proved.) -/
+theorem src_imports_end_namespace (cur : Pkg) (pydantic : Bool) (sites : List Site) (hc : pkgOk cur = true)
+    (hok : ∀ s ∈ sites, s.ok cur pydantic = true)
+    (imps : List Import)
+    (hcover : ∀ s ∈ sites, (siteRef cur pydantic s).imp = .none ∨ (siteRef cur pydantic s).imp ∈ imps)
+    (honly : ∀ i ∈ imps, ∃ s ∈ sites, (siteRef cur pydantic s).imp = i)
+    (c : OutputFile) (hctx : c.imports_end = imps.map Import.render) :
+    (∃ pre post, text (Src.render_template c)
+        = pre ++ '\n' :: (imps.flatMap (fun i => i.render ++ ['\n'])) ++ '\n' :: post) ∧
+    ∀ s ∈ sites, s.tgt ≠ googleProtobuf →
+      denoteNs cur (imps.filterMap (Import.bind cur)) (siteRef cur pydantic s).ref
+        = some (.gen s.tgt, classOf s.ty) := by
+  constructor
+  · refine ⟨text (enumsBlock c ++ messagesBlock c ++ stubsBlock c), text (basesBlock c), ?_⟩
+    have e : Src.render_template c = _ := src_imports_end_position c c.imports_end
+    have hl : ∀ l : List Import, List.flatMap (fun i => i ++ ['\n']) (l.map Import.render)
+        = l.flatMap (fun i => i.render ++ ['\n']) := by
+      intro l
+      induction l with
+      | nil => rfl
+      | cons x r ih => simp only [List.map_cons, List.flatMap_cons, ih]
+    simp only [e, text_append, text_cons, src_imports_end_text, hctx, hl]
+    simp [Piece.text]
+  · intro s hs hg
+    rw [← all_at_once cur pydantic sites hc hok s hs hg]
+    symm
+    apply denoteNs_same_set
+    · intro b hb
+      obtain ⟨s', hs', hb'⟩ := List.mem_filterMap.1 hb
+      rcases hcover s' hs' with h | h
+      · rw [h] at hb'; cases hb'
+      · exact List.mem_filterMap.2 ⟨_, h, hb'⟩
+    · intro b hb
+      obtain ⟨i, hi, hb'⟩ := List.mem_filterMap.1 hb
+      obtain ⟨s', hs', rfl⟩ := honly i hi
+      exact List.mem_filterMap.2 ⟨s', hs', hb'⟩
+    · intro b hb b' hb' e
+      have hforms := moduleNs_form cur pydantic sites hc hok
+      exact form_inj cur pydantic b b' (hforms b hb) (hforms b' hb') e
+
+/-- non-vacuity: a cousin reference from `a.b` to `c.d.Msg` -/
+example :
+    let cur := pkg "a.b"
+    let s : Site := { tgt := pkg "c.d", ty := [str "Msg"], unwrap := false }
+    pkgOk cur = true ∧ s.ok cur false = true ∧ s.tgt ≠ googleProtobuf ∧
+    (siteRef cur false s).imp.render = str "from ...c import d as __c_d__" := by
+  decide
+
+end ns
 
 /-! ## the header -/
 
